@@ -399,53 +399,22 @@ func ruleC01Tiers(r *Run) {
 		}
 		succ := false
 		if okFlag != nil {
-			cut := cutEdges(mf, func(cond ssa.Value, truth bool) bool { return cond == okFlag && !truth })
-			// from the call, taking only the ok==true edge, every path returns (route, ps) and never reaches another matchRegex call
-			again := pathExists(mf, in, func(x ssa.Instruction) bool {
-				cc, isCall := x.(*ssa.Call)
-				return isCall && staticCallee(cc) == m.matchRegex
-			}, nil, func(b *ssa.BasicBlock, si int) bool {
-				if b == in.Block() {
-					return cut(b, si)
-				}
-				return false
-			})
-			retOK := true
-			sawRet := false
-			seen := map[*ssa.BasicBlock]bool{}
-			var walk func(b *ssa.BasicBlock)
-			walk = func(b *ssa.BasicBlock) {
-				if seen[b] {
-					return
-				}
-				seen[b] = true
-				for _, x := range b.Instrs {
-					if ret, isRet := x.(*ssa.Return); isRet {
-						sawRet = true
-						if len(ret.Results) != 2 || canon(ret.Results[0]) != canon(recv) || ret.Results[1] != psVal {
-							retOK = false
-						}
-						return
+			// from the call, with ok == true, every path returns (route, ps) and never runs another matchRegex
+			paths, complete := exploreFrom(in, []condFact{{okFlag, true}}, 4000)
+			succ = complete && len(paths) > 0
+			for _, fp := range paths {
+				for _, x := range fp.instrs {
+					if cc, isCall := x.(*ssa.Call); isCall && staticCallee(cc) == m.matchRegex {
+						succ = false
 					}
 				}
-				for _, s := range b.Succs {
-					walk(s)
+				if fp.ret == nil {
+					continue
+				}
+				if len(fp.ret.Results) != 2 || canon(resolvePhi(fp.ret.Results[0], fp.pc)) != canon(recv) || resolvePhi(fp.ret.Results[1], fp.pc) != psVal {
+					succ = false
 				}
 			}
-			// the true successor of the If on okFlag
-			for _, b := range mf.Blocks {
-				if iff, isIf := b.Instrs[len(b.Instrs)-1].(*ssa.If); isIf {
-					c0, pos := stripNot(iff.Cond)
-					if c0 == okFlag {
-						if pos {
-							walk(b.Succs[0])
-						} else {
-							walk(b.Succs[1])
-						}
-					}
-				}
-			}
-			succ = !again && retOK && sawRet
 		}
 		r.Check(rule, name+" first match wins", w.InstrPos(in), succ, map[bool]string{true: "on the first successful regexp match the function returns that candidate and its parameters", false: "a successful match does not return that candidate at once (a later candidate can win, or other values are returned)"}[succ])
 	}
@@ -978,45 +947,52 @@ func ruleC02Cache(rule string) func(r *Run) {
 		r.Check(rule, "(*Route).copyWithParams:params", cw.Pos(), okP, "the cached copy carries the parameters it was given")
 		// cacheDynamicRoute passes (key, copyWithParams(ps)) of its own arguments
 		cd := m.cacheDyn
+		// the wrapper's parameter and route arguments, by type (the key material may be one or several strings)
+		psI, rtI := -1, -1
+		for i, prm := range cd.Params {
+			if i == 0 {
+				continue
+			}
+			if types.Identical(prm.Type(), types.NewPointer(w.Named("rux", "Route"))) {
+				rtI = i
+			} else if types.Identical(prm.Type(), w.Named("rux", "Params")) {
+				psI = i
+			}
+		}
 		set := w.Fn("rux", "cachedRoutes.Set")
 		for i, c := range callsToFn(cd, set) {
 			a := c.Common().Args
-			ok := len(a) == 3 && a[1] == ssa.Value(cd.Params[1])
+			ok := len(a) == 3 && psI > 0 && rtI > 0
 			if ok {
 				cc, isC := a[2].(*ssa.Call)
-				ok = isC && staticCallee(cc) == cw && cc.Call.Args[0] == ssa.Value(cd.Params[3]) && cc.Call.Args[1] == ssa.Value(cd.Params[2])
+				ok = isC && staticCallee(cc) == cw && cc.Call.Args[0] == ssa.Value(cd.Params[rtI]) && cc.Call.Args[1] == ssa.Value(cd.Params[psI])
 			}
-			r.Check(rule, fmt.Sprintf("(*Router).cacheDynamicRoute:Set#%d", i+1), w.InstrPos(c), ok, "stores route.copyWithParams(ps) under the given key")
+			r.Check(rule, fmt.Sprintf("(*Router).cacheDynamicRoute:Set#%d", i+1), w.InstrPos(c), ok, "stores route.copyWithParams(ps) of its own route and parameter arguments")
 		}
 		// in match: the pair cached is the pair returned
 		mf := m.matchFn
 		for i, c := range callsToFn(mf, cd) {
-			a := c.Common().Args
+			a0 := c.Common().Args
+			if psI < 0 || rtI < 0 || len(a0) <= psI || len(a0) <= rtI {
+				r.Undecided(rule, fmt.Sprintf("(*Router).match:cacheDynamicRoute#%d", i+1), w.InstrPos(c.(ssa.Instruction)), "the wrapper has no (Params, *Route) arguments")
+				continue
+			}
+			// a[2] = parameters, a[3] = route (by type)
+			a := []ssa.Value{a0[0], nil, a0[psI], a0[rtI]}
 			in := c.(ssa.Instruction)
 			ok := false
 			detail := "the (params, route) pair handed to the cache is the pair returned to the caller"
-			// the next return reachable from here returns (a[3], a[2])
-			seen := map[*ssa.BasicBlock]bool{}
-			var walk func(b *ssa.BasicBlock, start int) bool
-			walk = func(b *ssa.BasicBlock, start int) bool {
-				for j := start; j < len(b.Instrs); j++ {
-					if ret, isRet := b.Instrs[j].(*ssa.Return); isRet {
-						return len(ret.Results) == 2 && canon(ret.Results[0]) == canon(a[3]) && ret.Results[1] == a[2]
-					}
+			// every return reachable from here returns (a[3], a[2])
+			fps, complete := exploreFrom(in, nil, 4000)
+			ok = complete && len(fps) > 0
+			for _, fp := range fps {
+				if fp.ret == nil {
+					continue
 				}
-				res := len(b.Succs) > 0
-				for _, s := range b.Succs {
-					if seen[s] {
-						continue
-					}
-					seen[s] = true
-					if !walk(s, 0) {
-						res = false
-					}
+				if len(fp.ret.Results) != 2 || canon(resolvePhi(fp.ret.Results[0], fp.pc)) != canon(a[3]) || resolvePhi(fp.ret.Results[1], fp.pc) != a[2] {
+					ok = false
 				}
-				return res
 			}
-			ok = walk(in.Block(), idxIn(in)+1)
 			if !ok {
 				detail = "the pair stored in the cache differs from the pair returned for this request: a later hit would observe other parameters/route than the miss did"
 			}
@@ -1098,7 +1074,7 @@ func enclosingPath(w *World, pos token.Pos) []ast.Node {
 func init() {
 	register(&property{
 		Meta: propertyMeta{
-			ID: "C01",
+			ID:          "C01",
 			Explanation: "The index that lookup walks is complete and ordered as the property states (not the regexp semantics of a pattern): (C01-ACCUM) path-sensitive evaluation of every insert into the two list-valued tier tables: the stored list is 'existing list ++ [route]', a fresh list only on a path where the comma-ok lookup said absent. (C01-METHODS) every tier insert is keyed by each element of a range over route.methods. (C01-KEYS) writer and reader keys agree per tier (static: method + whole path; first-segment: method + seg(X) with the same canonical form of seg on both sides; residual: method). (C01-TIERS) in match the static lookup dominates everything, a static hit returns at once, the cache sits after static and before dynamic matching, first-segment list before residual list, each scan is a range loop over the looked-up list applying the regexp to the whole path and returning the first candidate that matches with its own parameters. (C01-REPR) representation typestate: values derived from quotePointChar (regex-escaped text and offsets) flow only into the compile call, never into Route.start or the first-segment key, which are compared with raw request text. (C01-ANCHOR) every compiled route pattern is '^' ++ ... ++ '$'.",
 			NotDecided:  []string{"that the generated regexp means what the pattern grammar says ({name}, {name:regex}, [...])", "isFixedPath and the off-by-one arithmetic inside seg (only writer/reader agreement is checked)", "priority among patterns that the grammar makes overlap beyond tier and registration order"},
 			Assumptions: []string{"regexp package semantics", "go/ssa range-loop lowering (#rangeindex) visits elements in ascending order"},
@@ -1107,7 +1083,7 @@ func init() {
 	})
 	register(&property{
 		Meta: propertyMeta{
-			ID: "C02",
+			ID:          "C02",
 			Explanation: "Positional alignment 'i-th capture group <-> i-th variable name' (not the substring equality): (C02-ALIGN) on every path through one iteration of the variable loop of parseParamRoute exactly one name is appended to Route.matches and exactly one capture group '(' + v + ')' is appended for the same (n, v) that goodRegexString checked. (C02-GROUPS) every store of a compiled pattern is followed on all paths by a registration-time panic unless regex.NumSubexp() == len(route.matches), which discharges the index r.matches[i] in matchRegex for all inputs. (C02-WRITERS) who-may-write Route.matches and Context.Params; Params is the second result of the one QuickMatch call whose first result is the dispatched route. (C02-CACHE) the cached copy carries exactly the pair the miss path returned; a hit returns (v, v.params); static routes return nil parameters.",
 			NotDecided:  []string{"values equal the path substrings; values satisfy the variable's regex; empty string for absent optional parts (run-time regexp behaviour)"},
 			Assumptions: []string{"regexp.FindAllStringSubmatch returns 1+NumSubexp entries per match (documented)"},
@@ -1243,7 +1219,10 @@ func ruleC01Grammar(r *Run) {
 	// '.' is a literal: every '.' is escaped
 	qp := w.Fn("rux", "quotePointChar")
 	okQ := false
-	for _, c := range callsIn(qp, func(c ssa.CallInstruction) bool { n := calleeName(c); return n == "strings.Replace" || n == "strings.ReplaceAll" }) {
+	for _, c := range callsIn(qp, func(c ssa.CallInstruction) bool {
+		n := calleeName(c)
+		return n == "strings.Replace" || n == "strings.ReplaceAll"
+	}) {
 		a := c.Common().Args
 		from, _ := constString(a[1])
 		to, _ := constString(a[2])
@@ -1260,7 +1239,34 @@ func ruleC01Grammar(r *Run) {
 	// optional parts: '[' opens a non-capturing group, ']' closes it optionally
 	cpo := w.Fn("rux", "checkAndParseOptional")
 	okO := false
-	for _, c := range callsToName(cpo, "strings.NewReplacer") {
+	// the replacer whose Replace(path) result the function returns: built in place, or a package-level
+	// variable assigned exactly once (in its declaration) from strings.NewReplacer
+	var replacers []ssa.CallInstruction
+	for _, rc := range callsToName(cpo, "(*strings.Replacer).Replace") {
+		recv := rc.Common().Args[0]
+		if c, ok := recv.(*ssa.Call); ok && calleeName(c) == "strings.NewReplacer" {
+			replacers = append(replacers, c)
+			continue
+		}
+		if ld, ok := recv.(*ssa.UnOp); ok && ld.Op == token.MUL {
+			if g, ok := ld.X.(*ssa.Global); ok {
+				var stores []*ssa.Store
+				for _, f := range w.Funcs {
+					eachInstr(f, func(in ssa.Instruction) {
+						if st, ok := in.(*ssa.Store); ok && st.Addr == ssa.Value(g) {
+							stores = append(stores, st)
+						}
+					})
+				}
+				if len(stores) == 1 && stores[0].Parent().Synthetic != "" {
+					if c, ok := stores[0].Val.(*ssa.Call); ok && calleeName(c) == "strings.NewReplacer" {
+						replacers = append(replacers, c)
+					}
+				}
+			}
+		}
+	}
+	for _, c := range replacers {
 		el := litElems(c.Common().Args[0])
 		if len(el) == 4 {
 			var s [4]string
